@@ -5,8 +5,11 @@ cd "$(dirname "$0")/.."
 A=$1; B=$2; TIER=${3:-quick}; shift 3 2>/dev/null
 IDS=("$@"); [ ${#IDS[@]} -eq 0 ] && IDS=(C01 C02 C03 C04 C05 C06 C07 C08 C09 C10 C11 C12 C13 C14 C15 C16 C17 C18 C19 C20)
 OUT=${SWEEP_OUT:-/tmp/acn-sweep.$$}; mkdir -p $OUT/replays
+bad=0
 for s in $(seq $A $B); do for id in "${IDS[@]}"; do
   VERIF_SEED=$s VERIF_EVIDENCE_DIR=$OUT/ev VERIF_REPLAY_DIR=$OUT/replays ./check $id --tier $TIER > $OUT/$id.$s.log 2>&1; rc=$?
   echo "seed=$s $id exit=$rc $(grep -c '^VIOLATION' $OUT/$id.$s.log) $(grep "^$id tier=" $OUT/$id.$s.log | sed 's/.*runs=\([0-9]*\).*wall=\(.*\)/runs=\1 wall=\2/')"
-  [ $rc -ne 0 ] && grep -E '^(VIOLATION|HARNESS)' $OUT/$id.$s.log | cut -c1-400
+  if [ $rc -ne 0 ]; then bad=1; grep -E '^(VIOLATION|HARNESS)' $OUT/$id.$s.log | cut -c1-400; fi
 done; done
+echo "seedsweep: seeds $A..$B tier=$TIER bad=$bad"
+exit $bad
